@@ -18,7 +18,8 @@ from __future__ import annotations
 import random
 
 PURE_ELS = ["+", "-", "*", "<", ">", "=", "›", "‹", "d", "N", ":", "D", "$", "_", "w", '"',
-            "W", "^", "!", "n", "L", "₀", "u", "∇"]
+            "W", "^", "!", "n", "L", "₀", "u", "∇",
+            "ɾ", "ʀ", "f", "h", "t", "Ṙ", "U", "∑", "G", "g", "J", "p", "c", "ɾ", "ɾ"]
 IMPURE_ELS = ["?", "£", "¥", "⅛", "¾", ",", "₴", "…"]
 CALL_ELS = ["†", "M", "F"]
 MONADIC_MODS = ["v", "&", "~", "ß", "ƒ", "ɖ", "⁽"]
@@ -27,7 +28,8 @@ TRIADIC_MODS = ["≬"]
 ARITY = {"+": 2, "-": 2, "*": 2, "<": 2, ">": 2, "=": 2, "›": 1, "‹": 1, "d": 1, "N": 1, ":": 1,
          "D": 1, "$": 2, "_": 1, "w": 1, '"': 2, "W": 0, "^": 0, "!": 0, "n": 0, "L": 1, "₀": 0,
          "u": 0, "∇": 3, "?": 0, "£": 1, "¥": 0, "⅛": 1, "¾": 0, ",": 1, "₴": 1, "…": 1,
-         "†": 1, "M": 2, "F": 2}
+         "†": 1, "M": 2, "F": 2, "ɾ": 1, "ʀ": 1, "f": 1, "h": 1, "t": 1, "Ṙ": 1, "U": 1, "∑": 1, "G": 1,
+         "g": 1, "J": 2, "p": 2, "c": 2}
 VAR_NAMES = ["a", "b", "cc"]
 FN_NAMES = ["f", "g"]
 
